@@ -291,6 +291,7 @@ func (w *World) Apply(ctx sdk.Context, l *Ledger, op Op, fail func(a, s, d strin
 		mustUnmarshal(r.Res, &resp)
 		l.Pos = append(l.Pos, Pos{ID: resp.PositionId, Owner: op.A, Lower: resp.LowerTick, Upper: resp.UpperTick, Liq: resp.LiquidityCreated, Join: ctx.BlockTime(), R: newPosR()})
 		l.Pos[len(l.Pos)-1].R.BornSeq = l.R.Redeposits
+		l.Pos[len(l.Pos)-1].R.BornSwaps = l.Swaps
 		l.LiqChanges++
 		after := bal(w, ctx, core.Acc(op.A))
 		paid := before.Sub(after...)
@@ -351,6 +352,7 @@ func (w *World) Apply(ctx sdk.Context, l *Ledger, op Op, fail func(a, s, d strin
 		}
 		l.Pos = append(l.Pos, Pos{ID: resp.PositionId, Owner: p.Owner, Lower: p.Lower, Upper: p.Upper, Liq: np.Liquidity, Join: ctx.BlockTime(), EverInRange: false, R: newPosR()})
 		l.Pos[len(l.Pos)-1].R.BornSeq = l.R.Redeposits
+		l.Pos[len(l.Pos)-1].R.BornSwaps = l.Swaps
 		l.LiqChanges += 2
 		if np.Liquidity.LT(p.Liq) {
 			fail("add.liquidity-not-decreased", "", fmt.Sprintf("old %s new %s", p.Liq, np.Liquidity))
@@ -515,8 +517,10 @@ func (w *World) Apply(ctx sdk.Context, l *Ledger, op Op, fail func(a, s, d strin
 		var resp cltypes.MsgCollectIncentivesResponse
 		mustUnmarshal(r.Res, &resp)
 		got := bal(w, ctx, core.Acc(p.Owner)).Sub(before...)
-		if !got.Equal(resp.CollectedIncentives) {
-			fail("cinc.response-matches-balance", "", fmt.Sprintf("response %s balance %s", resp.CollectedIncentives, got))
+		// the sender receives what the response reports as collected; when no liquidity is active the
+		// forfeited part is returned to the sender as well (documented in redepositForfeitedIncentives)
+		if !got.Equal(resp.CollectedIncentives) && !got.Equal(resp.CollectedIncentives.Add(resp.ForfeitedIncentives...)) {
+			fail("cinc.response-matches-balance", "", fmt.Sprintf("response collected %s forfeited %s, balance moved %s", resp.CollectedIncentives, resp.ForfeitedIncentives, got))
 		}
 		l.IncClaimed = l.IncClaimed.Add(resp.CollectedIncentives...)
 		l.Claims++
@@ -530,9 +534,10 @@ func (w *World) Apply(ctx sdk.Context, l *Ledger, op Op, fail func(a, s, d strin
 			// reference: what a position forfeits goes to the active liquidity (statement: nothing is lost)
 			w.redeposit(ctx, l, forfeit, &tgt.R)
 			for u, d := range incDenoms {
-				tgt.R.CumInc[u] = tgt.R.CumInc[u].Add(resp.CollectedIncentives.AmountOf(d))
-				if !ent[u] && resp.CollectedIncentives.AmountOf(d).IsPositive() && otherL.Cmp(ratInt(1)) >= 0 {
-					fail("c08.uptime-not-met-not-paid", "", fmt.Sprintf("collect: position %d age %s < uptime %s was paid %s %s while other liquidity is active", tgt.ID, ctx.BlockTime().Sub(tgt.Join), w.Uptime[u], resp.CollectedIncentives.AmountOf(d), d))
+				// book what actually reached the owner (forfeits are returned to the sender when no liquidity is active)
+				tgt.R.CumInc[u] = tgt.R.CumInc[u].Add(got.AmountOf(d))
+				if !ent[u] && got.AmountOf(d).IsPositive() && otherL.Cmp(ratInt(1)) >= 0 {
+					fail("c08.uptime-not-met-not-paid", "", fmt.Sprintf("collect: position %d age %s < uptime %s was paid %s %s while other liquidity is active", tgt.ID, ctx.BlockTime().Sub(tgt.Join), w.Uptime[u], got.AmountOf(d), d))
 				}
 			}
 		}
